@@ -465,6 +465,8 @@ def bitfield_update(w, range_start, range_end, newvalue, truncating=False):
     idxs_lower = idxs[:idxs_middle[0]]
     idxs_upper = idxs[idxs_middle[-1] + 1:]
 
+    if truncating and isinstance(newvalue, int):
+        newvalue &= (1 << len(idxs_middle)) - 1  # as_wires only truncates wires, not ints
     newvalue = as_wires(newvalue, bitwidth=len(idxs_middle), truncating=truncating)
     if len(idxs_middle) != len(newvalue):
         raise PyrtlError('Cannot update bitfield of length %d with value of length %d '
